@@ -262,6 +262,8 @@ impl Directive {
                             messages: messages.clone(),
                         };
                         parse_file_internal(&context)?;
+                        let known_paths = context.include_paths.borrow().clone();
+                        include_paths.borrow_mut().extend(known_paths);
                     } else {
                         bail!("wrong format for .include, expected: {} in {}", opts, point,);
                     }
